@@ -37,6 +37,12 @@ var codecPairs = []codecPair{
 
 func c03() []*Ob {
 	return []*Ob{
+		{Prop: "C03", ID: "C03.11", Engine: "PAIR(two sites)", Floor: 1,
+			Desc:  "a field's lowest token is read back as it was written: the token table loader takes FieldData.MinVal from entry 0, or — if it takes the first non-empty one — the writer gives a MinVal to the first entry of a field only. With both relaxed, a field whose lowest token is the empty string gets the second block's first token as its minimum in the reloaded table, and hints below it select nothing",
+			Check: func(c *Ctx) { fieldMinValIsFirstEntrys(c) }},
+		{Prop: "C03", ID: "C03.12", Engine: "PAIR(two sites)", Floor: 1,
+			Desc:  "a decoded flag that is consumed is encoded from the same flag: nothing outside the codec reads lids.Chunks.IsLastLID, or — if an iterator does — Chunks.Pack writes the end marker from that flag. With both relaxed, a token whose postings fill a LIDs block exactly has no marker, the iterator goes on into the next block and the sealed search panics where the active one answers",
+			Check: func(c *Ctx) { consumedChunkFlagIsEncoded(c) }},
 		{Prop: "C03", ID: "C03.10", Engine: "PROV(no-truncation)+ALIAS", Floor: 3,
 			Desc:  "the token table that is read back from the index file selects the same dictionary blocks as the one built at sealing: the block bounds written by TableEntry.Pack and restored by the table loader are the whole first/last tokens, copied (shared rule with C13.9) — a bound cut to a default token size on the way to disk makes the reloaded (restarted, or evicted and re-read) form of a fraction miss tokens that the active and the freshly sealed form find",
 			Check: func(c *Ctx) { tableBoundsWhole(c) }},
